@@ -820,7 +820,7 @@ class AwareASTNode(DataClassSerializeMixin):
         Raises:
             ASTNodeReplaceWithError: if replacement is not possible
         """
-        if new and new.is_attached_subtree:
+        if new is not None and new.is_attached_subtree:
             raise ASTNodeReplaceWithError(
                 f"Failed to replace AST Node <{self.id}> with <{new.id}> "
                 "because the new node has a parent already",
